@@ -25,7 +25,7 @@ package main
 // parent as CRASH; a transition that never returns is reported as HANG (bounded
 // progress, see reportHang) and ends the batch.
 //
-// Further case classes: stale-result cases (genStale), late-report cases (a hook task reports exit 0 after the
+// Further case classes: two-attempt cases (genTwoAttempt), stale-result cases (genStale), late-report cases (a hook task reports exit 0 after the
 // environment has accounted it as timed out, a gated sibling of the same trigger
 // command still pending: the outcome must be the timeout outcome) and sibling
 // cases (one failing critical call, healthy gated calls awaited at the same
@@ -72,11 +72,182 @@ var targetEvents = []string{"CONFIGURE", "START_ACTIVITY", "STOP_ACTIVITY", "RES
 // failing critical call, gated healthy calls at the same await point), before
 // them `stale` cases (a call result that waits for its await point longer than the
 // hook's timeout).
-func c09Sizes(tier string) (singles, total, late, sib, stale int) {
+func c09Sizes(tier string) (singles, total, late, sib, stale, two int) {
 	if tier == "thorough" {
-		return 2400, 10000, 300, 600, 600
+		return 2400, 10000, 300, 600, 600, 600
 	}
-	return 96, 360, 16, 24, 24
+	return 96, 384, 16, 24, 24, 24
+}
+
+// twoTimeout is the timeout trait of the hook task of a two-attempt case.
+const twoTimeout = 250 * time.Millisecond
+
+// revisit returns a shortest sequence of legal events from state whose last
+// transition has the moment `name` (nil if two steps do not suffice).
+func revisit(r *rand.Rand, state, name string) []string {
+	var found [][]string
+	for _, e1 := range envlab.LegalEvents(state) {
+		d1 := envlab.Destination(e1, state)
+		if (envlab.Occurrence{Event: e1, Src: state, Dst: d1}).MomentIndex(name) >= 0 {
+			found = append(found, []string{e1})
+		}
+	}
+	if len(found) == 0 {
+		for _, e1 := range envlab.LegalEvents(state) {
+			d1 := envlab.Destination(e1, state)
+			for _, e2 := range envlab.LegalEvents(d1) {
+				if (envlab.Occurrence{Event: e2, Src: d1, Dst: envlab.Destination(e2, d1)}).MomentIndex(name) >= 0 {
+					found = append(found, []string{e1, e2})
+				}
+			}
+		}
+	}
+	if len(found) == 0 {
+		return nil
+	}
+	return found[r.Intn(len(found))]
+}
+
+// genTwoAttempt: hook task "t" (timeout twoTimeout) at one of the four moments of the
+// target. Attempt 1: it never reports, the environment accounts the timeout.
+// Then its exit-0 report arrives through Environment.NotifyEvent while no hook
+// phase is running. Attempt 2: the walk goes on until the moment comes again
+// (retry of the cancelled transition, the way round through the inverse
+// transition, or another transition that has the same moment) and "t" exits
+// non-zero / never reports / succeeds. Each attempt is judged by the outcome
+// table with what "t" did in THAT attempt: a report that came too late belongs
+// to no later run.
+func genTwoAttempt(r *rand.Rand, hc HookCase, v int) HookCase {
+	hc.TwoAttempt = true
+	hc.FollowUp = false
+	m := failMoments[v%4]
+	critical := (v/4)%2 == 0
+	hc.Second = []envlab.Behaviour{envlab.TaskExitNonZero, envlab.TaskTimeout, envlab.OK}[(v/8)%3]
+	for try := 0; ; try++ {
+		ev := targetEvents[r.Intn(len(targetEvents))]
+		prefix := prefixes[ev][0]
+		walk := append(append([]string{}, prefix...), ev)
+		occs := occurrencesOf(walk)
+		tocc := occs[len(prefix)]
+		name := tocc.Moments()[m]
+		inPrefix := false
+		for _, o := range occs[:len(prefix)] {
+			inPrefix = inPrefix || o.MomentIndex(name) >= 0
+		}
+		after := tocc.Dst
+		if critical && (m == envlab.MBefore || m == envlab.MLeave) {
+			after = tocc.Src
+		}
+		if inPrefix || revisit(r, after, name) == nil {
+			if try < 50 {
+				continue
+			}
+		}
+		hc.Walk, hc.Target = walk, len(prefix)
+		hc.FailPoint = envlab.Expr(name, pickWeight(r))
+		break
+	}
+	t := envlab.HookSpec{Name: "t", Kind: envlab.Task, Trigger: hc.FailPoint, Timeout: twoTimeout.String(), Behaviour: envlab.TaskTimeout}
+	if critical {
+		if r.Intn(2) == 0 {
+			c := true
+			t.Critical = &c
+		}
+	} else {
+		f := false
+		t.Critical = &f
+	}
+	hc.Hooks = []envlab.HookSpec{t}
+	hc.Failing = []string{"t"}
+	// background: calls only (another hook task's phase would take the stale report away)
+	cont := append(append([]string{}, hc.Walk...), envlab.LegalEvents(occurrencesOf(hc.Walk)[hc.Target].Dst)...)
+	if len(cont) > len(hc.Walk)+1 {
+		cont = cont[:len(hc.Walk)+1]
+	}
+	for _, b := range genHooks(r, cont, 1+r.Intn(3), "b", r.Intn(2) == 0) {
+		if b.Kind == envlab.Call && r.Intn(2) == 0 {
+			hc.Hooks = append(hc.Hooks, b)
+		}
+	}
+	if r.Intn(3) == 0 {
+		hc.Hooks = append(hc.Hooks, sentinels(cont)...)
+	}
+	r.Shuffle(len(hc.Hooks), func(i, j int) { hc.Hooks[i], hc.Hooks[j] = hc.Hooks[j], hc.Hooks[i] })
+	return hc
+}
+
+func execTwoAttempt(w *envlab.World, hc HookCase) (*caseOutcome, *envlab.Lab, error) {
+	if hc.GoMaxProcs > 0 {
+		prev := runtime.GOMAXPROCS(hc.GoMaxProcs)
+		defer runtime.GOMAXPROCS(prev)
+	}
+	lab, err := w.NewLab(hc.Hooks, nil)
+	if err != nil {
+		return nil, nil, err
+	}
+	defer lab.Close()
+	out := &caseOutcome{Case: hc, FailAt: map[int]envlab.Behaviour{}}
+	finish := func() (*caseOutcome, *envlab.Lab, error) {
+		out.Occs = lab.Occurrences()
+		out.Records = lab.Records()
+		out.Anomalies = lab.Anomalies()
+		out.GatedOpen = lab.GatedObservedOpen()
+		out.Spurious = lab.SpuriousTimeouts()
+		return out, lab, nil
+	}
+	step := func(ev string) (envlab.TransResult, bool) {
+		res := lab.Transition(ev, nil)
+		if res.Hang != "" {
+			out.Hang, out.HangEvent = res.Hang, ev
+			return res, false
+		}
+		out.Results = append(out.Results, res)
+		return res, true
+	}
+	var last envlab.TransResult
+	for i, ev := range hc.Walk {
+		if i == hc.Target {
+			out.FailAt[i] = envlab.TaskTimeout
+		}
+		res, ok := step(ev)
+		if !ok {
+			return finish()
+		}
+		last = res
+		if i < hc.Target && res.Err != nil {
+			out.Teardown = lab.Teardown(true)
+			return finish()
+		}
+	}
+	// the report of the first run comes now, too late, with no hook phase running
+	lab.LateNotify("t")
+	lab.SetBehaviour("t", hc.Second, false, 0)
+	name, _ := envlab.ParseExpr(hc.FailPoint)
+	r := rand.New(rand.NewSource(hc.Idx*7919 + 13))
+	path := revisit(r, last.State, name)
+	for i, ev := range path {
+		if i == len(path)-1 {
+			out.FailAt[last.Occ.K+1] = hc.Second
+		}
+		res, ok := step(ev)
+		if !ok {
+			return finish()
+		}
+		last = res
+		if i < len(path)-1 && res.Err != nil {
+			break
+		}
+	}
+	if len(path) > 0 {
+		out.SecondDone = true
+	}
+	// whatever invokes "t" again (the teardown's leave_<state> pass) gets no report
+	lab.SetBehaviour("t", envlab.TaskTimeout, false, 0)
+	out.Teardown = lab.Teardown(true)
+	if out.Teardown.Hang != "" {
+		out.Hang, out.HangEvent = out.Teardown.Hang, "DESTROY"
+	}
+	return finish()
 }
 
 // staleTimeout is the (short) timeout trait of the call of a stale case; its
@@ -150,7 +321,7 @@ func genStale(r *rand.Rand, hc HookCase, v int) HookCase {
 	return hc
 }
 
-func genC09(c *vlib.Ctx, idx int64, singles, total, late, sib, stale int) HookCase {
+func genC09(c *vlib.Ctx, idx int64, singles, total, late, sib, stale, two int) HookCase {
 	r := c.SubRand(idx)
 	hc := HookCase{Prop: "C09", Idx: idx, FollowUp: true}
 	hc.GoMaxProcs = 1
@@ -164,6 +335,9 @@ func genC09(c *vlib.Ctx, idx int64, singles, total, late, sib, stale int) HookCa
 	isSib := !isLate && int(idx) >= total-late-sib
 	if !isLate && !isSib && int(idx) >= total-late-sib-stale {
 		return genStale(r, hc, int(idx)-(total-late-sib-stale))
+	}
+	if int(idx) >= total-late-sib-stale-two && int(idx) < total-late-sib-stale {
+		return genTwoAttempt(r, hc, int(idx)-(total-late-sib-stale-two))
 	}
 	if isLate {
 		// a hook task that reports (exit 0) after the environment has accounted it as timed
@@ -344,7 +518,7 @@ func runC09() {
 		dumpOutcome(out, checkC09(out, lab))
 		return
 	}
-	singles, total, late, sib, stale := c09Sizes(c.Tier)
+	singles, total, late, sib, stale, two := c09Sizes(c.Tier)
 	// interleave: batch b takes indices b, b+nbatch, ... so that every batch has singles and multis
 	nb := c.NBatch
 	if nb < 1 {
@@ -352,7 +526,7 @@ func runC09() {
 	}
 	first := true
 	for i := c.Batch; i < total; i += nb {
-		hc := genC09(c, int64(i), singles, total, late, sib, stale)
+		hc := genC09(c, int64(i), singles, total, late, sib, stale, two)
 		id := c.Case(hc)
 		out, lab, err := execC09(w, hc)
 		if err != nil {
@@ -380,6 +554,9 @@ func runC09() {
 }
 
 func execC09(w *envlab.World, hc HookCase) (*caseOutcome, *envlab.Lab, error) {
+	if hc.TwoAttempt {
+		return execTwoAttempt(w, hc)
+	}
 	if hc.GoMaxProcs > 0 {
 		prev := runtime.GOMAXPROCS(hc.GoMaxProcs)
 		defer runtime.GOMAXPROCS(prev)
@@ -396,6 +573,7 @@ func execC09(w *envlab.World, hc HookCase) (*caseOutcome, *envlab.Lab, error) {
 		out.Anomalies = lab.Anomalies()
 		out.GatedOpen = lab.GatedObservedOpen()
 		out.LateUnconfirmed = lab.LateUnconfirmed()
+		out.Spurious = lab.SpuriousTimeouts()
 		return out, lab, nil
 	}
 	for i, ev := range hc.Walk {
@@ -496,6 +674,16 @@ func countC09(c *vlib.Ctx, out *caseOutcome) {
 	if hc.Sibling {
 		c.Count("sibling_cases", 1)
 	}
+	if out.Spurious > 0 {
+		c.Count("cases_lab_slower_than_hook_timeout", 1)
+	}
+	if hc.TwoAttempt {
+		c.Count("two_attempt_cases", 1)
+		if out.SecondDone && out.Spurious == 0 {
+			c.Count("two_attempt_cases_judged", 1)
+			c.Count("two_attempt_second_"+string(hc.Second), 1)
+		}
+	}
 	if hc.Stale {
 		c.Count("stale_result_cases", 1)
 		if len(hc.Failing) > 0 {
@@ -540,7 +728,21 @@ type failure struct {
 }
 
 // failuresOf returns the hooks that fail in occurrence k according to the scripts.
-func failuresOf(hc HookCase, k int, lab *envlab.Lab) []failure {
+func failuresOf(out *caseOutcome, k int, lab *envlab.Lab) []failure {
+	hc := out.Case
+	if hc.TwoAttempt {
+		// what the hook task did in this occurrence (first attempt, second attempt, nothing in between)
+		beh, ok := out.FailAt[k]
+		if !ok || beh == envlab.OK || beh == "" {
+			return nil
+		}
+		for _, h := range hc.Hooks {
+			if h.Name == "t" {
+				return []failure{{"t", beh, h.IsCritical(), lab.TaskName("t")}}
+			}
+		}
+		return nil
+	}
 	if k != hc.Target {
 		return nil
 	}
@@ -602,6 +804,11 @@ func checkC09(out *caseOutcome, lab *envlab.Lab) []violation {
 		// report was handed over (log message not seen): only "the core survives" is required
 		return nil
 	}
+	if out.Spurious > 0 {
+		// the environment timed out a hook task that was scripted to report: the lab was
+		// slower than a short hook timeout; what happened is then not what the case describes
+		return nil
+	}
 	add := func(rule, class, detail string) { vs = append(vs, violation{rule, class, detail}) }
 	hc := out.Case
 	specs := map[string]envlab.HookSpec{}
@@ -611,25 +818,26 @@ func checkC09(out *caseOutcome, lab *envlab.Lab) []violation {
 	occs := out.Occs
 	// points the walk did not go through: after a critical failure the rest of the pass,
 	// and at before_/leave_ the rest of the transition
-	var visited visitedFunc
-	if hc.Target < len(occs) {
+	critAt := map[int]envlab.Pos{}
+	for _, res := range out.Results {
 		anyCrit := false
-		for _, f := range failuresOf(hc, hc.Target, lab) {
+		for _, f := range failuresOf(out, res.Occ.K, lab) {
 			anyCrit = anyCrit || f.Critical
 		}
 		tn, tw := envlab.ParseExpr(hc.FailPoint)
-		if m := occs[hc.Target].MomentIndex(tn); anyCrit && m >= 0 {
-			x := envlab.Pos{K: hc.Target, M: m, W: tw}
-			visited = func(p envlab.Pos) bool {
-				if p.K != x.K || !x.Less(p) {
-					return true
-				}
-				if x.M == envlab.MBefore || x.M == envlab.MLeave {
-					return false
-				}
-				return !(p.M == x.M && (p.W < 0) == (x.W < 0))
-			}
+		if m := res.Occ.MomentIndex(tn); anyCrit && m >= 0 {
+			critAt[res.Occ.K] = envlab.Pos{K: res.Occ.K, M: m, W: tw}
 		}
+	}
+	visited := func(p envlab.Pos) bool {
+		x, ok := critAt[p.K]
+		if !ok || !x.Less(p) {
+			return true
+		}
+		if x.M == envlab.MBefore || x.M == envlab.MLeave {
+			return false
+		}
+		return !(p.M == x.M && (p.W < 0) == (x.W < 0))
 	}
 	ivs, idx := buildInvocations(specs, occs, out.Records, visited)
 
@@ -678,7 +886,7 @@ func checkC09(out *caseOutcome, lab *envlab.Lab) []violation {
 	for _, res := range out.Results {
 		occ := res.Occ
 		k := occ.K
-		fs := failuresOf(hc, k, lab)
+		fs := failuresOf(out, k, lab)
 		var crit, noncrit []failure
 		for _, f := range fs {
 			if f.Critical {
@@ -692,6 +900,11 @@ func checkC09(out *caseOutcome, lab *envlab.Lab) []violation {
 			role = "prefix"
 		} else if k > hc.Target {
 			role = "follow-up"
+		}
+		second := ""
+		if hc.TwoAttempt && k > hc.Target {
+			role = "after-late-report"
+			second = ":after-late-report"
 		}
 		if len(crit) == 0 {
 			tag := role + ":noncritical-" + kindsClass(fs, false)
@@ -731,6 +944,7 @@ func checkC09(out *caseOutcome, lab *envlab.Lab) []violation {
 		if len(crit) > 1 {
 			tag = fmt.Sprintf("%s:multi", mk)
 		}
+		tag += second
 		if res.Err == nil {
 			add("OUTCOME", "nil-error-despite-critical-failure:"+tag,
 				fmt.Sprintf("transition #%d %s returned nil although critical hooks failed at %s: %v", k, occ.Event, hc.FailPoint, crit))
